@@ -58,14 +58,15 @@ func init() {
 	Register(&Check{
 		ID: "C15", Level: "exploration", Tech: "deterministic simulation: seam monitors (drive writer opens, index-store mutations) + tape digest + full row dump after every call on read-only instances, differential reads against a writable twin",
 		Rule:      "a writable instance populates a tape from a generated history; then a read-only instance (composition A: with write backend; composition B: as `serve http` builds it, writeOps=nil and no write cache; index present or absent) receives a generated history of every mutating and non-mutating method incl. OpenFile with every flag set and writes/truncates/syncs on the handles; after every call: no drive writer was opened, no mutating index-store method was called, SHA-256 of the tape and the dump of all index rows are unchanged, explicit mutators fail with a permission error, nothing panics, and pure reads return what a writable twin over copies returns; non-trivial = at least 3 mutating and 2 read calls on a tape with >= 3 entries; distinct by (composition, op kinds)",
-		QuickRuns: 400, QuickSecs: 60, ThoroughRuns: 40000, ThoroughSecs: 1500,
+		QuickRuns: 2500, QuickSecs: 60, ThoroughRuns: 40000, ThoroughSecs: 1500,
 		Assumptions: []string{"building a missing index on first open is allowed; the baseline for 'unchanged' is taken right after the read-only instance has been initialised"},
 		Gen: func(r *rand.Rand, tier string, relax Relax) *Case {
 			c := &Case{Cfg: GenConfig(r, 0.6), P: map[string]int64{}, S: map[string]string{}}
 			pop, u := GenHistory(r, GenOpts{MaxOps: 8, RS: c.Cfg.RecordSize, ValidBias: 0.9, Style: "plain", Symlinks: r.Float64() < 0.3})
 			c.Progs = append(c.Progs, pop)
 			// the read-only history reuses the same name universe: plain names, so most paths exist
-			ro, _ := GenHistory(r, GenOpts{MaxOps: 14, RS: c.Cfg.RecordSize, ValidBias: 0.9, Style: "plain", Handles: true, Reads: true, Symlinks: r.Float64() < 0.3})
+			// (steered by the state the population leaves behind, so that most calls hit existing entries)
+			ro, _ := GenHistory(r, GenOpts{MaxOps: 14, RS: c.Cfg.RecordSize, ValidBias: 0.9, Style: "plain", Handles: true, Reads: true, Symlinks: r.Float64() < 0.3, Init: pop})
 			// sprinkle read groups on paths of the population
 			var paths []string
 			for _, o := range pop {
